@@ -121,6 +121,24 @@ def add_two_entry_cycle(rng, spec):
     return spec
 
 
+def _ancestors(node, derive, sel):
+    """Nodes from which `node` is reachable over derivation edges and origin->option edges."""
+    preds = {}
+    for a, b in derive:
+        preds.setdefault(b, set()).add(a)
+    for cid, origin, opts in sel:
+        for o in opts:
+            preds.setdefault(o, set()).add(origin)
+    seen, todo = set(), [node]
+    while todo:
+        x = todo.pop()
+        for p in preds.get(x, ()):
+            if p not in seen:
+                seen.add(p)
+                todo.append(p)
+    return seen
+
+
 def gen_tree_spec(rng, n_incompat_max=0, max_choices=4, p_multi_start=0.15):
     """Clean hierarchical spec: every option node is offered by exactly one choice and derived by nothing else, the
     structure is acyclic, choices nest under options or under nodes derived by options; plain nodes may be derived by
@@ -160,9 +178,12 @@ def gen_tree_spec(rng, n_incompat_max=0, max_choices=4, p_multi_start=0.15):
                 derive.append([o, n])
                 plain.append(n)
             elif rng.random() < 0.15 and len(plain) > len(start):  # ... or an existing plain (non-start) node
-                t = rng.choice([x for x in plain if x not in start])
-                if [o, t] not in derive:
-                    derive.append([o, t])
+                anc = _ancestors(o, derive, sel)  # never an ancestor of the option: the structure stays acyclic
+                cands = [x for x in plain if x not in start and x not in anc and x != o]
+                if cands:
+                    t = rng.choice(cands)
+                    if [o, t] not in derive:
+                        derive.append([o, t])
     incompat = []
     if n_incompat_max and len(option_nodes) >= 2:
         for _ in range(rng.randint(0 if rng.random() < 0.15 else 1, n_incompat_max)):
